@@ -8,7 +8,7 @@ from core import hx, exc_name
 from gen import cut
 
 ID = 'C02'
-MODULES = ['Httoop.Props.C02']
+MODULES = ['Httoop.Props.C02', 'Httoop.Props.C02Pipeline']
 THEOREMS = [
 	'Httoop.Parser.splitOnce_crlf',
 	'Httoop.Parser.dechunk_chunk',
@@ -17,6 +17,17 @@ THEOREMS = [
 	'Httoop.Parser.run_out_prefix',
 	'Httoop.Parser.fresh_state_after_delivery',
 	'Httoop.Parser.c02_411_witness',
+	'Httoop.Parser.splitOnce_first',
+	'Httoop.Parser.run_one',
+	'Httoop.Parser.run_one_chunked',
+	'Httoop.Parser.pipeline_exact',
+	'Httoop.Parser.feed_pipeline',
+	'Httoop.Parser.pipeline_mixed',
+	'Httoop.Parser.goodB_sound',
+	'Httoop.Parser.goodCB_sound',
+	'Httoop.Parser.c02_pipeline_witness_server',
+	'Httoop.Parser.c02_pipeline_witness_client',
+	'Httoop.Parser.c02_pipeline_witness_mixed',
 ]
 TRUSTED = [
 	'harness/wire.py is an independent RFC 7230 writer (it does not use httoop); the oracle compares deliveries with the writer\'s own records',
@@ -214,5 +225,8 @@ def finding_still_fails(k):
 
 LEVEL_TEXT = ('Theorems for ALL payloads, chunk partitions, extensions and trailers (unbounded): a chunked body written per RFC 7230 4.1 is decoded by the model\'s reader to exactly the concatenated payload with the rest of the stream left over (dechunk_chunk); '
 	'a Content-Length body is taken octet for octet and the following octets are retained (body_length_exact); after a delivery the per-message state is fresh (fresh_state_after_delivery), which is isolation. '
-	'Together with C01\'s fragmentation theorems this gives prefix-exact delivery for the body layer; start line and header block are tied by correspondence. The independent writer\'s records are the oracle.')
+	'Together with C01\'s fragmentation theorems this gives prefix-exact delivery for the body layer. WHOLE PIPELINES are a theorem as well (pipeline_mixed, feed_pipeline): any number of messages, each a start line, a header block and a body framed by Content-Length or in chunks, '
+	'written one after the other, go through the outer loop of the state machine (start-line phase, header phase with the first CRLFCRLF found by splitOnce_first, body, delivery hooks) and come out as exactly those messages, in order, nothing retained, on both sides; '
+	'what a writer must get right for one message is the predicate Good / GoodC (the start line yields a record, the block parses, the hooks at the end of the header section accept, the length field reads back as the body length or the transfer coding is chunked), '
+	'computable (goodB, goodCB) and evaluated by the kernel for concrete request and response pipelines (c02_pipeline_witness_*). The independent writer\'s records are the oracle.')
 LEVEL_NOTE = 'Trusted: Lean kernel; the RFC 7230 writer transcription (Lean: Spec in Props/C02, Python: harness/wire.py); parser model tested against the code.'
